@@ -411,11 +411,27 @@ theorem grow_ensureSigchld (st : St) : Grow st (ensureSigchld st) := by
   · exact Grow.refl _
   · exact (grow_watchSignal _ _ _ _).trans (Grow.of_eq rfl rfl)
 
+theorem grow_setNotify (st : St) (a : Nat) (n : Option Nat) : Grow st (setNotify st a n) := by
+  unfold setNotify
+  exact grow_setW st a { st.getW a with notify := n } rfl
+
+theorem grow_linkNotified (r : St × Nat) (a : Nat) (flags : Nat) : Grow r.1 (linkNotified r a flags) := by
+  unfold linkNotified
+  exact ((grow_setNotify r.1 a (some r.2)).trans (grow_insertWatch _ _ _ _)).trans (grow_with_procs _ _)
+
+theorem grow_clearNotify (st : St) (a : Nat) : Grow st (clearNotify st a) := by
+  unfold clearNotify
+  split
+  · exact grow_setNotify st a none
+  · exact Grow.refl _
+
 theorem grow_linkProcess (st : St) (a : Nat) (pid : Int) (flags : Nat) : Grow st (linkProcess st a pid flags) := by
   unfold linkProcess
   simp only []
   split
-  · exact ((grow_waitpid _ _).trans (grow_setWstatus _ _ _)).trans (grow_watchLater _ _ _ _)
+  · split
+    · exact (((grow_waitpid _ _).trans (grow_setWstatus _ _ _)).trans (grow_watchLater _ _ _ _)).trans (grow_linkNotified _ _ _)
+    · exact ((grow_waitpid _ _).trans (grow_setWstatus _ _ _)).trans (grow_watchLater _ _ _ _)
   · exact ((grow_waitpid _ _).trans (grow_insertWatch _ _ _ _)).trans (grow_with_procs _ _)
 
 theorem grow_watchProcess (st : St) (pid : Int) (flags : Nat) (slot : Int) :
@@ -530,8 +546,8 @@ theorem grow_laterPre (st : St) (a : Nat) : Grow st (laterPre st a) := by
   · exact grow_setW _ a _ rfl
   · exact Grow.refl _
 
-theorem pres_watchCancel (st : St) (a : Nat) : Pres st (watchCancel st a) := by
-  unfold watchCancel
+theorem pres_watchCancel0 (st : St) (a : Nat) : Pres st (watchCancel0 st a) := by
+  unfold watchCancel0
   split
   · exact Pres.refl st
   · split
@@ -545,6 +561,24 @@ theorem pres_watchCancel (st : St) (a : Nat) : Pres st (watchCancel st a) := by
             · exact (grow_cancelDetached st a).pres
             · exact Pres.refl st
           · exact pres_cancelFound st a _ _ rfl
+
+theorem pres_watchCancel (st : St) (a : Nat) : Pres st (watchCancel st a) := by
+  unfold watchCancel
+  split
+  · split
+    · exact (pres_watchCancel0 st a).trans (pres_watchCancel0 _ _)
+    · exact pres_watchCancel0 st a
+  · exact pres_watchCancel0 st a
+
+/-- For a watch that is not a process watch `tickit_watch_cancel` is `watchCancel0`. -/
+theorem watchCancel_eq0 (st : St) (a : Nat) (h : (st.getW a).type ≠ .process) : watchCancel st a = watchCancel0 st a := by
+  unfold watchCancel
+  rw [if_neg]
+  intro hh
+  have := hh.2
+  unfold cancelFindsProcess at this
+  simp only [Bool.and_eq_true, beq_iff_eq] at this
+  exact h this.1.2
 
 theorem grow_with_slots (st : St) (l : List SlotRec) : Grow st { st with slots := l } := Grow.of_eq rfl rfl
 theorem grow_with_errno (st : St) (e : Int) : Grow st { st with errno := e } := Grow.of_eq rfl rfl
@@ -982,7 +1016,7 @@ theorem pres_processNotify (st : St) (a : Nat) : Pres st (processNotify st a) :=
   unfold processNotify
   split
   · exact (grow_fail _ _).pres
-  · exact pres_invokeWatch _ _ _ _
+  · exact (grow_clearNotify _ _).pres.trans (pres_invokeWatch _ _ _ _)
 
 theorem pres_laterCb (st : St) (a : Nat) : Pres st (laterCb st a) := by
   unfold laterCb
@@ -1626,7 +1660,8 @@ theorem watchCancel_exact (st : St) (a : Nat) (hok : st.status = .ok) (hl : st.l
       exact not_mem_after_first a _ hnd hb
     rw [St.live_free_ne _ _ _ hab, live_of_heap_eq hn_heap]; exact hall b hbl
   have hres : watchCancel st a = s2.free a := by
-    unfold watchCancel
+    rw [watchCancel_eq0 st a (by rcases ht with h | h <;> rw [h] <;> decide)]
+    unfold watchCancel0
     simp only [hisok, hl, htn, hpre, hcont, Bool.not_true, Bool.false_eq_true, if_false]
     unfold cancelFound
     rw [hhook, hs1, hs2]
